@@ -24,7 +24,7 @@ pub static DEF: PropertyDef = PropertyDef {
     exhaustive_note: "none (sampled programs and histories)",
     generate,
     execute,
-    must_hit: &["fault.message.warning_delivered", "fault.message.error_delivered", "fault.message.version_warning", "fault.message.continue_after_warning", "fault.message.reset_after_error", "fault.slice.message_in_sliced_continue", "fault.message.silent_site_passed", "fault.message.redirect_after_error"],
+    must_hit: &["fault.message.warning_delivered", "fault.message.error_delivered", "fault.message.version_warning", "fault.message.continue_after_warning", "fault.message.reset_after_error", "fault.slice.message_in_sliced_continue", "fault.message.silent_site_passed", "fault.message.redirect_after_error", "fault.message.error_in_host_evaluation"],
     timeout_s: 30,
     hang_class: None,
     sub_builds: &[],
@@ -47,7 +47,8 @@ fn generate(_corpus: &Corpus, tier: Tier, run: u64, rng: &mut Rng) -> Option<Cas
     // a knot of plain text to redirect the story to (after an error, or at any other time): nothing in it
     // raises a message, so whatever is delivered while it plays is a re-delivery
     if let Some(src) = prog.source.clone() {
-        let ext = format!("{src}\n=== zz_redirect ===\nredirected line one\nredirected line two\n-> END\n");
+        // ... and a function for the host to evaluate whose own frame raises an error
+        let ext = format!("VAR zz_zero = 0\n{src}\n=== zz_redirect ===\nredirected line one\nredirected line two\n-> END\n=== function zz_ferr() ===\n~ return 10 / zz_zero\n");
         if let Ok(json) = crate::corpus::compile_source(&ext, None)
             && let Some(p2) = Program::from_json("generated", &prog.name, Some(ext), json)
         {
@@ -79,6 +80,10 @@ fn generate(_corpus: &Corpus, tier: Tier, run: u64, rng: &mut Rng) -> Option<Cas
         ops.push(Op::Choose(rng.below(5) as u32));
         if rng.chance(1, 6) {
             ops.push(Op::Reset);
+        } else if rng.chance(1, 8) {
+            // the host evaluates a function that fails: the error is delivered once and stops the story like any other
+            ops.push(Op::Eval { name: "zz_ferr".into(), args: vec![] });
+            ops.push(Op::Continue);
         } else if rng.chance(1, 5) {
             // the host redirects the story (often right after an error stopped it)
             ops.push(Op::Jump { path: "zz_redirect".into(), reset: true, args: vec![] });
@@ -191,6 +196,13 @@ fn execute(case: &Case) -> CaseResult {
         let mark = h.log.borrow().len();
         let can_h = h.can_continue();
         let rh = h.apply(op);
+        if matches!(op, Op::Eval { .. }) {
+            // the no-handler twin would keep the error as unhandled: not comparable from here
+            in_sync = false;
+            if h.log.borrow()[mark..].iter().any(|e| matches!(e, Ev::Handler { warning: false, .. })) {
+                res.stats.inc("fault.message.error_in_host_evaluation");
+            }
+        }
         if let Op::Jump { path, .. } = op
             && path == "zz_redirect"
         {
@@ -277,7 +289,13 @@ fn execute(case: &Case) -> CaseResult {
                 }
                 continue;
             }
-            if delivered_in_epoch.contains(m) {
+            if matches!(op, Op::Eval { .. }) {
+                // the host may evaluate the failing function as often as it likes: each evaluation raises its
+                // messages anew; within one evaluation none may come twice
+                if h_msgs.iter().filter(|x| x.1 == *m).count() > 1 {
+                    fail!("message:duplicate", if *w { "warning" } else { "error" }, "delivered twice by one host evaluation", at.clone(), "delivered once".to_string(), short(m));
+                }
+            } else if delivered_in_epoch.contains(m) {
                 fail!("message:duplicate", if *w { "warning" } else { "error" }, "delivered again by a later continue", at.clone(), "delivered once".to_string(), short(m));
             } else {
                 delivered_in_epoch.push(m.clone());
